@@ -16,7 +16,7 @@ theorem getD_map_smul (row : List F) (g : G) (j : ℕ) :
 
 theorem gtranspose_lift (R : Mat F) (g : G) :
     gtranspose (lift R g) = (transpose R).map fun col => col.map fun c => c • g := by
-  unfold gtranspose transpose numCols lift
+  unfold gtranspose transpose transposeN numCols lift
   have hlen : ((R.map fun r => r.map fun c => c • g).headD []).length = (R.headD []).length := by
     cases R <;> simp
   rw [hlen, List.map_map]
